@@ -36,3 +36,61 @@ Theorem C20_class_enumeration_exact_le6 : forall n lens,
   1 <= n <= 6 -> In lens (partitions n) -> class_ok n lens = true.
 Proof. exact class_enumeration_exact_le6. Qed.
 Print Assumptions C20_class_enumeration_exact_le6.
+
+From V Require Import Base Perm PermProofs PermEnum ClassEnumCycles ClassEnumGeneral ClassEnumCount.
+
+(* GENERAL n (no bound): the canonical backtracking enumeration returns exactly the permutations of n points with the requested cycle type (lengths in any order) *)
+Theorem C20_class_enum_In_iff :
+  forall (n : nat) (lens : list nat) (res : list (list nat)),
+         perms_with_cycle_lengths n lens = Ok res ->
+         forall q : list nat,
+         List.In q res <-> length q = n /\ Perm q /\ cycle_type q = Mergesort.NatSort.sort lens.
+Proof. exact @class_enum_In_iff. Qed.
+Print Assumptions C20_class_enum_In_iff.
+
+(* each exactly once *)
+Theorem C20_class_enum_NoDup :
+  forall (n : nat) (lens : list nat) (res : list (list nat)),
+         perms_with_cycle_lengths n lens = Ok res -> List.NoDup res.
+Proof. exact @class_enum_NoDup. Qed.
+Print Assumptions C20_class_enum_NoDup.
+
+(* and their number times prod k^(m_k) m_k! is n! *)
+Theorem C20_class_enum_count :
+  forall (n : nat) (lens : list nat) (res : list (list nat)),
+         perms_with_cycle_lengths n lens = Ok res ->
+         length res * class_denominator lens = Factorial.fact n.
+Proof. exact @class_enum_count. Qed.
+Print Assumptions C20_class_enum_count.
+
+(* it succeeds exactly when n >= 1, all lengths >= 1 and they sum to n *)
+Theorem C20_class_enum_Ok_iff :
+  forall (n : nat) (lens : list nat),
+         (exists res : list (list nat), perms_with_cycle_lengths n lens = Ok res) <->
+         1 <= n /\ List.Forall (fun k : nat => 1 <= k) lens /\ sum_list lens = n.
+Proof. exact @class_enum_Ok_iff. Qed.
+Print Assumptions C20_class_enum_Ok_iff.
+
+(* the model's fuel is never exhausted *)
+Theorem C20_class_enum_fuel_irrelevant :
+  forall (n : nat) (lens : list nat) (fuel : nat),
+         length lens <= fuel ->
+         backtrack fuel (BinNums.Zneg BinNums.xH) (List.seq 0 n) (counter_of lens) =
+         backtrack (length lens) (BinNums.Zneg BinNums.xH) (List.seq 0 n) (counter_of lens).
+Proof. exact @class_enum_fuel_irrelevant. Qed.
+Print Assumptions C20_class_enum_fuel_irrelevant.
+
+(* the order of the requested lengths does not matter *)
+Theorem C20_class_enum_order_irrelevant_eq :
+  forall (n : nat) (l1 l2 : list nat),
+         Permutation.Permutation l1 l2 ->
+         perms_with_cycle_lengths n l1 = perms_with_cycle_lengths n l2.
+Proof. exact @class_enum_order_irrelevant_eq. Qed.
+Print Assumptions C20_class_enum_order_irrelevant_eq.
+
+(* cycle_type of a permutation is the sorted list of the lengths of ANY decomposition into cycles *)
+Theorem C20_cycle_type_of_decomp :
+  forall (p : list nat) (cs : list (list nat)),
+         CycleDecomp p cs -> cycle_type p = Mergesort.NatSort.sort (List.map (length (A:=nat)) cs).
+Proof. exact @cycle_type_of_decomp. Qed.
+Print Assumptions C20_cycle_type_of_decomp.
